@@ -1,8 +1,8 @@
 // C06 driver: call histories emitted by TLC (MC_Lifecycle) replayed on REAL, REUSED objects.
 //   drv_c06 replay <rows.ndjson>
-// Per history: one high-level Encoder whose options persist between calls, one reused low-level encoder object per geometry kind
+// Per history: one high-level Encoder whose options persist between calls, one reused ExpertEncoder per geometry, one reused low-level encoder object per geometry kind
 // (MeshEdgebreakerEncoder via SetMesh + Encode, PointCloudSequentialEncoder via SetPointCloud + Encode), one EncoderBuffer that is cleared only
-// when the history says so, one reused Decoder.  Geometry 1 is a mesh, geometry 2 a point cloud; option set 1 = speed 5, 2 = speed 0 with 10-bit
+// when the history says so, one reused Decoder.  Geometry 1 is a mesh, geometry 2 a point cloud; option set 1 = speed 10 with 14-bit positions, 2 = speed 0 with 10-bit
 // positions, 3 = invalid (31 quantisation bits: the encoder must refuse it every time).
 #include "geom.h"
 #include "draco/compression/mesh/mesh_edgebreaker_encoder.h"
@@ -33,15 +33,21 @@ static Geom make_geom(int g) {
   return x;
 }
 
+// Every option set names every option it depends on (speed and position bits), and nothing is reset between calls: what a call produces may depend
+// on the options it sets, never on what an earlier call left behind.  Option set 1 uses speed 10 (sequential coding is auto-selected), 2 speed 0.
 static void apply_hl(Encoder *e, int o) {
-  e->Reset();
-  if (o == 1) e->SetSpeedOptions(5, 5);
+  if (o == 1) { e->SetSpeedOptions(10, 10); e->SetAttributeQuantization(GeometryAttribute::POSITION, 14); }
   if (o == 2) { e->SetSpeedOptions(0, 0); e->SetAttributeQuantization(GeometryAttribute::POSITION, 10); }
   if (o == 3) { e->SetSpeedOptions(3, 3); e->SetAttributeQuantization(GeometryAttribute::POSITION, 31); }
 }
+static void apply_ex(ExpertEncoder *e, int o) {
+  if (o == 1) { e->SetSpeedOptions(10, 10); e->SetAttributeQuantization(0, 14); }
+  if (o == 2) { e->SetSpeedOptions(0, 0); e->SetAttributeQuantization(0, 10); }
+  if (o == 3) { e->SetSpeedOptions(3, 3); e->SetAttributeQuantization(0, 31); }
+}
 static EncoderOptions ll_options(int o) {
   EncoderOptions eo = EncoderOptions::CreateDefaultOptions();
-  if (o == 1) eo.SetSpeed(5, 5);
+  if (o == 1) { eo.SetSpeed(10, 10); eo.SetAttributeInt(0, "quantization_bits", 14); }
   if (o == 2) { eo.SetSpeed(0, 0); eo.SetAttributeInt(0, "quantization_bits", 10); }
   if (o == 3) { eo.SetSpeed(3, 3); eo.SetAttributeInt(0, "quantization_bits", 31); }
   return eo;
@@ -59,6 +65,7 @@ static int run_replay(const char *path) {
     ++h;
     out.begin("Reset").i("h", h).end();
     Encoder hl;
+    ExpertEncoder ex_mesh(*g1.mesh()), ex_pc(*g2.pc);
     MeshEdgebreakerEncoder ll_mesh;
     PointCloudSequentialEncoder ll_pc;
     EncoderBuffer buf;
@@ -70,12 +77,16 @@ static int run_replay(const char *path) {
       const std::string a = c["a"].s;
       const int g = (int)c["g"].n, o = (int)c["o"].n;
       const Geom &geom = g == 1 ? g1 : g2;
-      if (a == "hl" || a == "ll") {
+      if (a == "hl" || a == "ll" || a == "ex") {
         const size_t before = buf.size();
         Status st;
         if (a == "hl") {
           apply_hl(&hl, o);
           st = geom.is_mesh ? hl.EncodeMeshToBuffer(*geom.mesh(), &buf) : hl.EncodePointCloudToBuffer(*geom.pc, &buf);
+        } else if (a == "ex") {
+          ExpertEncoder &ex = geom.is_mesh ? ex_mesh : ex_pc;
+          apply_ex(&ex, o);
+          st = ex.EncodeToBuffer(&buf);
         } else {
           const EncoderOptions eo = ll_options(o);
           if (geom.is_mesh) { ll_mesh.SetMesh(*geom.mesh()); st = ll_mesh.Encode(eo, &buf); }
